@@ -65,7 +65,8 @@ def write_overlay(name, rep):
 write_overlay("overlay.json", replace)
 
 # 3. profiles: /verif/ovl/profiles/<name>.txt with lines "maprange <pkg path>" give
-#    overlay-<name>.json = base overlay + every non-test file of the package rewritten by
+#    (optionally followed by file names) give overlay-<name>.json = base overlay + every
+#    non-test file (or only the named files) of the package rewritten by
 #    engine/cmd/maprange (map iteration order becomes an explorable choice, see engine/vmap).
 import subprocess
 prof_dir = os.path.join(VERIF, "ovl", "profiles")
@@ -80,12 +81,15 @@ if os.path.isdir(prof_dir):
             if not line:
                 continue
             kind, rel = line.split()[:2]
+            only = line.split()[2:]  # optional file filter
             if kind != "maprange":
                 print("overlay: unknown profile directive", kind, file=sys.stderr)
                 sys.exit(1)
             pkgdir = os.path.join(REPO, rel)
             for f in sorted(os.listdir(pkgdir)):
                 if not f.endswith(".go") or f.endswith("_test.go"):
+                    continue
+                if only and f not in only:
                     continue
                 src = rep.get(os.path.join(pkgdir, f), os.path.join(pkgdir, f))
                 dst = os.path.join(GEN, "mr__" + rel.replace("/", "__") + "__" + f)
